@@ -262,7 +262,59 @@ def strat_value():
     return st.fixed_dictionaries({'p': gen.progs(CFG)})
 
 
+def eval_many(case):
+    """a long chain of small styled pieces joined with +=, + and join: every character keeps its own operand's settings
+    (long chains cross any size threshold of the implementation: number of change points, text length)"""
+    o = Outcome()
+    pieces = []
+    for pc in case['pieces']:
+        v = AnsiString(pc['t'])
+        for r in pc['r']:
+            v.apply_formatting(r[0], r[1], r[2], r[3])
+        pieces.append(AnsiStr(v) if pc.get('s') else v)
+    exp_t = ''.join(p.base_str for p in pieces)
+    exp_p = [x for p in pieces for x in per_char(p)]
+    acc = AnsiString('')
+    for p in pieces:
+        acc += p
+    acc2 = AnsiString.join(*pieces) if pieces else AnsiString('')
+    acc3 = pieces[0] if pieces else AnsiString('')
+    for p in pieces[1:]:
+        acc3 = acc3 + p
+    for nm, r in (('+=', acc), ('join', acc2), ('+', acc3)):
+        if r.base_str != exp_t:
+            o.fail('many-text', '%s chain of %d pieces: text differs' % (nm, len(pieces)))
+            continue
+        pr = per_char(r)
+        bad = [i for i in range(len(exp_t)) if not same_settings(pr[i], exp_p[i])]
+        if bad:
+            o.fail('many-settings', '%s chain of %d pieces (%d chars): char %d reports %r; in its own operand it reported %r' % (
+                nm, len(pieces), len(exp_t), bad[0], pr[bad[0]], exp_p[bad[0]]))
+        if tail_settings(r) != ():
+            o.fail('many-not-closed', '%s chain of %d pieces' % (nm, len(pieces)))
+    o.nontrivial = len(pieces) >= 30
+    o.label('pieces:%d' % (len(pieces) // 10 * 10))
+    return o
+
+
+@st.composite
+def strat_many(draw):
+    names = ['red', 'blue', 'bold', 'bg_red', 'underline', 'faint', 'fg_default', 'orange', 'italic']
+    n = draw(st.sampled_from([8, 20, 36, 48, 70, 90]))
+    pieces = []
+    for _ in range(n):
+        t = draw(st.sampled_from(['a', 'ab', 'abc', 'x ', 'hello']))
+        rs = []
+        for _ in range(draw(st.integers(0, 3))):
+            a = draw(st.integers(0, len(t) - 1))
+            rs.append([draw(st.sampled_from(names)), a, draw(st.one_of(st.none(), st.integers(a + 1, len(t)))), draw(st.sampled_from([True, True, False]))])
+        pieces.append({'t': t, 'r': rs, 's': draw(st.sampled_from([False, False, True]))})
+    return {'pieces': pieces}
+
+
 SUBS = [
+    Sub('many_pieces', eval_many, strategy=strat_many, quick=40, thorough=600,
+        rule='chains of 8-90 small styled pieces (shadowed, conflicting and duplicate settings) concatenated with +=, join and +'),
     Sub('concat', eval_concat, strategy=strat_concat, quick=300, thorough=5000),
     Sub('seam', eval_concat, strategy=strat_seam, quick=400, thorough=8000,
         rule='seam-forcing generator: related settings on both sides of the seam'),
